@@ -20,6 +20,8 @@ import (
 	"encoding/hex"
 	"encoding/json"
 	"fmt"
+	"github.com/cosmos/cosmos-sdk/x/params"
+	paramproposal "github.com/cosmos/cosmos-sdk/x/params/types/proposal"
 	"math/big"
 	"math/rand"
 	"sort"
@@ -1036,6 +1038,26 @@ func (h *hist) addCoinTo(p *pair) {
 
 func (h *hist) opToggleModule() {
 	h.modOn = !h.modOn
+	if h.pick(2) == 0 {
+		// the way a live chain does it: a passed parameter-change proposal writes the raw parameter key
+		pc := paramproposal.NewParameterChangeProposal("t", "d", []paramproposal.ParamChange{paramproposal.NewParamChange(aggtypes.ModuleName, "EnableAggregate", fmt.Sprintf("%v", h.modOn))})
+		handler := params.NewParamChangeProposalHandler(h.n.App.ParamsKeeper)
+		cctx, write := h.n.Ctx().CacheContext()
+		if err := pc.ValidateBasic(); err != nil {
+			h.r.Inconclusive("parameter-change proposal invalid in %s: %v", h.id, err)
+			h.ended = true
+			return
+		}
+		if err := handler(cctx, pc); err != nil {
+			h.r.Inconclusive("parameter-change proposal failed in %s: %v", h.id, err)
+			h.ended = true
+			return
+		}
+		write()
+		h.ops = append(h.ops, fmt.Sprintf("module enabled -> %v (parameter-change proposal)", h.modOn))
+		h.r.Count("toggle_module_by_parameter_change_proposal", 1)
+		return
+	}
 	prm := h.n.App.AggregateKeeper.GetParams(h.n.Ctx())
 	prm.EnableAggregate = h.modOn
 	h.n.App.AggregateKeeper.SetParams(h.n.Ctx(), prm)
